@@ -105,7 +105,7 @@ func C14(c *Ctx) {
 	r := c.R
 	r.Rule("R14.1", "credit/debit pairing: every balance credit of BitXHub-native execution (executor, built-in contracts, wasm host functions) credits an amount that was debited from another account earlier on every path of the same function (same SSA value, or an integer quotient of it), or - when the amount is a parameter - at every call site; unpaired credits need a named exception (admin grant, genesis). An arbitrary SetBalance(x) is an unpaired credit.")
 	r.Rule("R14.2", "sufficiency: every debit balance.Sub(x, y) / SubBalance(y) lies behind a comparison establishing x >= y with an error return otherwise (or debits the whole balance).")
-	r.Rule("R14.3", "alias safety: when a function debits one account and credits another that may be the same account (no inequality guard), the balance read used for the credit is sequenced after the debit store; otherwise a self-transfer overwrites the debit and mints the amount.")
+	r.Rule("R14.3", "alias safety: when a function debits one account and credits another that may be the same account (no inequality guard on the account values - comparing two *types.Address pointers is not one), the balance read used for the credit is sequenced after the debit store; otherwise a self-transfer overwrites the debit and mints the amount.")
 	r.Rule("R14.4", "fee split: the per-admin fee is fees / len(admins) and is credited once per element of that same admin list (loss <= n-1).")
 	r.NotDecided = append(r.NotDecided, "sums over histories; EVM value transfers (external engine)")
 
@@ -362,7 +362,41 @@ func C14(c *Ctx) {
 				}
 				nAlias++
 				// inequality guard?
-				guard := core.EqualityEdges(fn, func(v ssa.Value) bool { return v == core.Strip(d.acct) }, func(v ssa.Value) bool { return v == core.Strip(cr.acct) }, true)
+				// an (in)equality test of the two accounts: for pointer-typed accounts (*types.Address) only a comparison of
+				// what they point to counts (String() / Bytes() / Hex() results, bytes.Equal) - `from == to` on pointers
+				// is false for two address objects naming the same account (every decoded transaction)
+				da, ca := core.Strip(d.acct), core.Strip(cr.acct)
+				_, ptrAcct := da.Type().Underlying().(*types.Pointer)
+				derived := func(acct ssa.Value) func(ssa.Value) bool {
+					return func(v ssa.Value) bool {
+						cc, ok := core.Strip(v).(*ssa.Call)
+						if !ok || core.CalleeObj(cc) == nil || len(cc.Call.Args) == 0 {
+							return false
+						}
+						switch core.CalleeObj(cc).Name() {
+						case "String", "Bytes", "Hex":
+							return sameValue(cc.Call.Args[0], acct)
+						}
+						return false
+					}
+				}
+				var guard core.EdgeSet
+				if ptrAcct {
+					guard = core.EqualityEdges(fn, derived(da), derived(ca), true)
+					for _, b := range fn.Blocks {
+						if ifi := core.IfOf(b); ifi != nil {
+							f := core.CondFact(ifi.Cond)
+							if cc, ok := core.Strip(f.Subject).(*ssa.Call); ok && f.Kind == core.FBool && core.CalleeName(cc) == "bytes.Equal" && len(cc.Call.Args) == 2 {
+								x, y := cc.Call.Args[0], cc.Call.Args[1]
+								if (core.Mentions(x, derived(da)) && core.Mentions(y, derived(ca))) || (core.Mentions(x, derived(ca)) && core.Mentions(y, derived(da))) {
+									guard.Add(b, 0)
+								}
+							}
+						}
+					}
+				} else {
+					guard = core.EqualityEdges(fn, func(v ssa.Value) bool { return v == da }, func(v ssa.Value) bool { return v == ca }, true)
+				}
 				if guard.Len() > 0 {
 					r.OK("R14.3", shortFn(fn)+": debit/credit accounts compared", c.P.Pos(cr.in.Pos()), "an (in)equality test between the two accounts exists")
 					continue
